@@ -129,7 +129,7 @@ def main():
         new_lines, known_lines = [], []
         rdir = os.path.join(HERE, "replays", pid)
         if os.environ.get("VF_NO_EVIDENCE"):
-            rdir = os.path.join(HERE, "replays", "_seeded", pid)
+            rdir = os.path.join(HERE, "replays", "_seeded" + os.environ.get("VF_REPLAY_TAG", ""), pid)
         if os.path.isdir(rdir):
             for fn in os.listdir(rdir):
                 if fn.startswith(tier + "_"):
